@@ -1383,8 +1383,10 @@ impl FusionVisitor for ShapeSliceToConstant {
         Ok(Fusion::Constant {
             input_ids: [x_id].into(),
             output_id,
+            // Name the constant after the value it replaces, so that the value
+            // can still be looked up by name (eg. if it is a graph output).
             value: ConstantNode::new(
-                op_node.name(),
+                graph.get_node(output_id).and_then(|n| n.name()),
                 ConstantNodeData::Arc(ArcTensor::from_data(&[dims.len()], Arc::new(dims))),
             )
             .into(),
